@@ -109,7 +109,12 @@ def check(ctx: Ctx) -> list[RuleResult]:
     r1.nontrivial += 1
     cfg = ctx.plain_cfg(wf)
     sup = [x for x in cfg.nodes if x.kind == "stmt" and "super().write_frame" in norm(x.ast)]
-    acq = [x for x in cfg.nodes if x.kind == "stmt" and norm(x.ast) == "await self._leaker_sem.acquire()"]
+    from .common import expand as _expand
+
+    def _acquires_leaker(a: ast.AST) -> bool:
+        return any(isinstance(c, ast.Await) and isinstance(c.value, ast.Call) and isinstance(c.value.func, ast.Attribute) and c.value.func.attr == "acquire" and norm(_expand(wf.node, c.value.func.value, pure_only=False)) == "self._leaker_sem" for c in ast.walk(a))
+
+    acq = [x for x in cfg.nodes if x.kind == "stmt" and x.ast is not None and _acquires_leaker(x.ast)]
     if sup and acq and all(acq[0].id in cfg.dominators().get(s.id, set()) for s in sup):
         r1.ok({"semaphore": "acquired before super().write_frame on every path"})
     else:
@@ -128,11 +133,36 @@ def check(ctx: Ctx) -> list[RuleResult]:
     ldc = repo.func(f"{T}.limit_duty_cycle.decorator")
     r2.instances += 1
     r2.nontrivial += 1
-    sel = [n for n in ldc.node.body if isinstance(n, ast.If) and norm(n.test) == "0 < max_duty_cycle <= 1" and isinstance(n.body[0], ast.Return) and norm(n.body[0].value) == "wrapper"]
-    if sel:
-        r2.ok({"selector": "0 < max_duty_cycle <= 1 -> wrapper"})
+    # which closure the decorator returns, evaluated (by constant folding of its top-level tests) for sample rates: the real
+    # limiter for the configured rate and for the ends of (0, 1]; the pass-through for rates outside
+    limiter = w_name = "wrapper"
+    lim_f = repo.funcs.get(f"{T}.limit_duty_cycle.decorator.{w_name}")
+
+    def _selected(rate_v: float) -> "str | None":
+        def run(body: list) -> "str | None":
+            for st in body:
+                if isinstance(st, ast.Return):
+                    return norm(st.value) if st.value is not None else "None"
+                if isinstance(st, ast.If):
+                    tv = ctx.consts.eval_in(ldc, st.test, {"max_duty_cycle": rate_v})
+                    if not isinstance(tv, bool):
+                        return None
+                    r = run(st.body if tv else st.orelse)
+                    if r is not None:
+                        return r
+            return None
+        return run(ldc.node.body)
+
+    def _is_limiter(name: "str | None") -> bool:
+        g = ldc.nested.get(name or "")
+        return g is not None and any(isinstance(x, ast.Nonlocal) for x in own_nodes(g.node))  # the closure that touches the bucket
+
+    picks = {rv: _selected(rv) for rv in (rate if isinstance(rate, (int, float)) else 0.01, 1, 0.001, 0, 1.5, -1)}
+    inside = [rv for rv in picks if 0 < rv <= 1]
+    if all(_is_limiter(picks[rv]) for rv in inside) and not any(_is_limiter(picks[rv]) for rv in picks if rv not in inside) and None not in picks.values():
+        r2.ok({"selector": {str(k): v for k, v in picks.items()}})
     else:
-        r2.fail(f"{ldc.short}:selector", ldc.loc(), "limit_duty_cycle no longer returns the limiting wrapper for rates in (0, 1]")
+        r2.fail(f"{ldc.short}:selector", ldc.loc(), f"limit_duty_cycle no longer returns the limiting wrapper exactly for rates in (0, 1]: {picks}")
     fold_flag(ctx, r2, T, "_DBG_DISABLE_DUTY_CYCLE_LIMIT", False, "the bit bucket would be refilled on every write (no limit)")
     gapv = ctx.consts.need("ramses_tx.const", "MIN_INTER_WRITE_GAP")
     r2.instances += 1
@@ -173,7 +203,8 @@ def check(ctx: Ctx) -> list[RuleResult]:
     r3 = RuleResult("R3", "debit on all exits; order refill -> test -> wait -> write -> debit", "in limit_duty_cycle.wrapper", min_instances=4)
     w = repo.func(f"{T}.limit_duty_cycle.decorator.wrapper")
     cfgw = ctx.cfg(w, pol)
-    bm = BucketModel(w.node, {n2 for st in own_nodes(w.node) if isinstance(st, ast.Nonlocal) for n2 in st.names})
+    sibs = {g.name: g.node for g in (w.parent.nested.values() if w.parent is not None else []) if g is not w}
+    bm = BucketModel(w.node, {n2 for st in own_nodes(w.node) if isinstance(st, ast.Nonlocal) for n2 in st.names}, siblings=sibs)
     if bm.level is None or bm.stamp is None:
         raise AnalysisError(f"limit_duty_cycle.wrapper: bucket level / refill stamp not identified among {sorted(bm.shared)}")
     dw = Deps(w)
@@ -208,19 +239,45 @@ def check(ctx: Ctx) -> list[RuleResult]:
     debit_ids = {d0.id for d0 in debit}
     def passing(x):
         return x.id in debit_ids
-    leaks = cfgw.exits_reachable_without(write[0].id, passing, skip_start_exc=False)
-    if not debit or leaks:
+    # a `with <local @contextmanager helper>(size):` around the write whose generator debits the level in the `finally` of the try
+    # that holds its only `yield` runs that debit on every exit of the with-body (normal, exception, cancellation): same guarantee
+    cm_debit = None
+    cur = getattr(write[0].ast, "parent", None)
+    while cur is not None and cur is not w.node:
+        if isinstance(cur, (ast.With, ast.AsyncWith)):
+            for it_ in cur.items:
+                c = it_.context_expr
+                if isinstance(c, ast.Call) and isinstance(c.func, ast.Name) and c.func.id in bm.helpers:
+                    h = bm.helpers[c.func.id]
+                    if any("contextmanager" in norm(d) for d in getattr(h, "decorator_list", [])) and any(bool(reads(a) & size_vars) for a in c.args):
+                        yields = [y for y in ast.walk(h) if isinstance(y, (ast.Yield, ast.YieldFrom))]
+                        trys = [t for t in ast.walk(h) if isinstance(t, ast.Try) and t.finalbody and any(isinstance(y, ast.Yield) for b in t.body for y in ast.walk(b))]
+                        hparams = {a.arg for a in h.args.args}
+                        if len(yields) == 1 and trys and any(bm._writes_direct(x, bm.level) and bool(reads(getattr(x, "value", x)) & hparams) for fb in trys[0].finalbody for x in ast.walk(fb)):
+                            cm_debit = f"with {c.func.id}(...): the helper's generator debits {bm.level} in the finally around its only yield"
+        cur = getattr(cur, "parent", None)
+    leaks = [] if cm_debit else cfgw.exits_reachable_without(write[0].id, passing, skip_start_exc=False)
+    if cm_debit:
+        r3.ok({"debit": cm_debit})
+    elif not debit or leaks:
         ex, path, labs = leaks[0] if leaks else (None, [], [])
         r3.fail(f"{w.short}:debit-skipped:{'exceptional' if ex is not None and ex.kind == 'raise_exit' else 'normal'}-exit", w.loc(write[0].ast), "a write can complete or fail without the frame being debited from the bit bucket", [f"{p.kind}@{p.line} --{lab}-->" for p, lab in zip(path, labs[1:] + [""])][:8])
     else:
         r3.ok({"debit": f"`{norm(debit[0].ast)}` post-dominates the write on normal and exceptional exits (finally)"})
     r3.instances += 1
     r3.nontrivial += 1
-    size = [n for n in own_nodes(w.node) if isinstance(n, ast.Assign) and isinstance(n.targets[0], ast.Name) and n.targets[0].id in size_vars and "frame" in reads(n.value)]
-    if len(size) == 1 and "len(frame[46:])" in norm(size[0].value):
-        r3.ok({"rf_frame_size": norm(size[0].value)})
+    # the amount tested/debited grows with the payload: after copy propagation it contains len(<a slice of frame>) with a positive factor
+    from .common import expand as _expand3
+
+    amounts = [_expand3(w.node, ast.Name(id=v, ctx=ast.Load()), pure_only=False) for v in sorted(size_vars)]
+    def _len_of_frame(e: ast.AST) -> bool:
+        return any(isinstance(c, ast.Call) and norm(c.func) == "len" and c.args and "frame" in reads(c.args[0]) for c in ast.walk(e))
+    used = [a0 for a0 in amounts if _len_of_frame(a0)]
+    tested = [v for v in size_vars if any(v in reads(t0.ast) for t0 in test)]
+    if used and any(_len_of_frame(_expand3(w.node, ast.Name(id=v, ctx=ast.Load()), pure_only=False)) for v in tested):
+        r3.ok({"rf_frame_size": norm(used[0])[:80]})
     else:
-        r3.fail(f"{w.short}:frame-size", w.loc(), f"the frame size no longer depends on the payload length: {[norm(s0.value) for s0 in size]}")
+        r3.fail(f"{w.short}:frame-size", w.loc(), f"the frame size no longer depends on the payload length: {[norm(a0)[:60] for a0 in amounts]}")
     out.append(r3)
 
     # ---- R6 ---------------------------------------------------------------------------
@@ -353,24 +410,33 @@ class BucketModel:
     stamp:  the shared variable written from the clock.     level: the shared variable whose refill depends on the stamp.
     """
 
-    def __init__(self, fn: ast.AST, shared: set[str]) -> None:
+    def __init__(self, fn: ast.AST, shared: set[str], siblings: "dict[str, ast.AST] | None" = None) -> None:
         self.fn = fn
         self.shared = set(shared)
         self.n_awaits = 0
         self.clock_locals: set[str] = set()
-        # local helper functions (closures over the same shared variables) are part of the limiter
+        # local helper functions (closures over the same shared variables) are part of the limiter: nested ones, and sibling
+        # closures of the enclosing function that this one calls (their nonlocal names are shared variables too)
         self.helpers = {n.name: n for n in ast.walk(fn) if isinstance(n, (ast.FunctionDef, ast.AsyncFunctionDef)) and n is not fn}
-        for n in ast.walk(fn):
+        called = {c.func.id for c in ast.walk(fn) if isinstance(c, ast.Call) and isinstance(c.func, ast.Name)}
+        for nm, h in (siblings or {}).items():
+            if nm in called and h is not fn:
+                self.helpers[nm] = h
+                for st in ast.walk(h):
+                    if isinstance(st, ast.Nonlocal):
+                        self.shared.update(st.names)
+        self._scan = [fn] + [h for h in self.helpers.values() if not any(h is x for x in ast.walk(fn))]
+        for n in self._walk_all():
             if isinstance(n, ast.Assign) and len(n.targets) == 1 and isinstance(n.targets[0], ast.Name) and norm(n.value) in CLOCKS:
                 self.clock_locals.add(n.targets[0].id)
         # flow-insensitive local deps: local -> shared vars / clock it derives from
         self.ldeps: dict[str, set[str]] = {}
         for _ in range(4):
-            for n in ast.walk(fn):
+            for n in self._walk_all():
                 for tgt, val in self._assignments(n):
                     if isinstance(tgt, ast.Name) and tgt.id not in self.shared:
                         self.ldeps.setdefault(tgt.id, set()).update(self._deps(val))
-        self.stamp = next((v for v in sorted(self.shared) if any(self._writes_direct(n, v) and self._is_clock(self._value_for(n, v)) for n in ast.walk(fn))), None)
+        self.stamp = next((v for v in sorted(self.shared) if any(self._writes_direct(n, v) and self._is_clock(self._value_for(n, v)) for n in self._walk_all())), None)
         if self.stamp is None:
             # never written here: the variable the clock is measured against (`<clock> - X`) is still the stamp
             for n in own_nodes(fn):
@@ -385,7 +451,11 @@ class BucketModel:
                     break
         self.level = None
         if self.stamp is not None:
-            self.level = next((v for v in sorted(self.shared) if v != self.stamp and any(self._writes_direct(n, v) and self.stamp in self._deps(self._value_for(n, v)) for n in ast.walk(fn))), None)
+            self.level = next((v for v in sorted(self.shared) if v != self.stamp and any(self._writes_direct(n, v) and self.stamp in self._deps(self._value_for(n, v)) for n in self._walk_all())), None)
+
+    def _walk_all(self):
+        for r in self._scan:
+            yield from ast.walk(r)
 
     @staticmethod
     def _assignments(n: ast.AST):
